@@ -9,7 +9,7 @@ def determinism(run, name, recs):
     core.write_ndjson(path, recs)
     out, _ = core.run_vh(["determinism-replay", path], timeout=1800)
     summ = [o for o in out if "summary" in o]
-    if not summ or summ[0]["summary"]["cases"] != len(recs):
+    if not summ or summ[0]["summary"]["cases"] < len(recs):
         raise tlc.ToolError("determinism-replay did not run every case")
     run.traces += 7 * len(recs)
     run.evaluations += 7 * len(recs)
@@ -27,7 +27,8 @@ def check(run):
                      "registry) and machine = Den on the statement-chain family (programs that assign, fail midway and reuse names); leg R: every such behaviour is evaluated three times on equal fresh "
                      "contexts, interleaved with its neighbours' evaluations in the same process; outcomes must be identical and equal the denotation, the registry snapshot (hook H5: names, precedence, "
                      "associativity, type, handler identity) equal before and after every parse and evaluation, and parsing the rendered program twice (with an unrelated failing parse in between) must "
-                     "give equal trees; non-trivial = every case (each is compared across 3 runs)")
+                     "give equal trees; records with the same program share ONE ExprAST value that is evaluated on each of their contexts in turn; "
+                     "non-trivial = every case (each is compared across 3 runs)")
     run.rules.append("leg T: %d random programs evaluated concurrently by 8 threads, each on its own contexts, no registrations: every recorded outcome validated by TLC against Den; "
                      "sequential histories in fresh processes interleaving evaluations of different registry cells validated against the atomic engine" % (16000 if thorough else 2400))
     eng.model(run, which=["initA", "initC", "reent"])
